@@ -80,6 +80,16 @@ def hiS : Scalar := { name := "$hi", bits := 32 }
 def loS : Scalar := { name := "$lo", bits := 32 }
 def c64 (v : Nat) : Expr := .const ⟨64, v⟩
 
+/-- the trapping arithmetic (add, addi, sub): head (nop) → the `IntegerOverflow` intrinsic when `ov`, → `op` otherwise → tail -/
+def trapGraph (a : Nat) (ov : Expr) (op : Op) : Function :=
+  mkGraph a [[.nop], [.intrinsic { mnemonic := "IntegerOverflow" }], [op], []]
+    [⟨0, 1, some ov⟩, ⟨0, 2, some (not1 ov)⟩, ⟨1, 3, none⟩, ⟨2, 3, none⟩] 3
+
+/-- "sign-extend both operands to 64 bits, add/subtract, overflow if bit 32 ≠ bit 31 of the result" -/
+def ovExpr (op : BinOp) (l r : Expr) : Expr :=
+  let t := Expr.bin op (.ext .sext 64 l) (.ext .sext 64 r)
+  .bin .cmpneq (.ext .trun 1 (.bin .shr t (.const ⟨64, 32⟩))) (.ext .trun 1 (.bin .shr t (.const ⟨64, 31⟩)))
+
 def sext16Nat (i : BitVec 16) : Nat := (i.signExtend 32).toNat
 
 def r3Expr (op : R3) (rs rt : Reg) : Option Expr :=
@@ -116,6 +126,11 @@ def liftI (i : Instr) (a : Nat) : Option Function :=
   | .r3 .movz rd rs rt =>
     some (tri a (.bin .cmpeq (rx rt) (c32 0)) (.bin .cmpneq (rx rt) (c32 0)) [.assign (rsc rd) (rx rs)])
   | .r3 op rd rs rt => (r3Expr op rs rt).map fun e => g1 a [.assign (rsc rd) e]
+  | .r3t .add rd rs rt => some (trapGraph a (ovExpr .add (rx rs) (rx rt)) (.assign (rsc rd) (.bin .add (rx rs) (rx rt))))
+  | .r3t .sub rd rs rt =>      -- rs = $zero is capstone's `neg`: rejected
+    if rs = 0 then none else some (trapGraph a (ovExpr .sub (rx rs) (rx rt)) (.assign (rsc rd) (.bin .sub (rx rs) (rx rt))))
+  | .addi rt rs i =>
+    some (trapGraph a (ovExpr .add (rx rs) (c32 (sext16Nat i))) (.assign (rsc rt) (.bin .add (rx rs) (c32 (sext16Nat i)))))
   | .mfhi rd => some (g1 a [.assign (rsc rd) (.scalar hiS)])
   | .mflo rd => some (g1 a [.assign (rsc rd) (.scalar loS)])
   | .mthi rs => some (g1 a [.assign hiS (rx rs)])
